@@ -182,6 +182,8 @@ type FX struct {
 	rngPos    T
 	rngPos0   T
 	rngReads  int
+	domain    T
+	safeClause bool
 	failN     int
 	chainCache map[string]chainRes
 	jsSets    [][2]T
@@ -277,7 +279,18 @@ func (fx *FX) pos(p token.Pos) string {
 }
 
 // oblige records a proof obligation at the current script position.
+func functionalKind(kind string) bool {
+	switch kind {
+	case "post", "assert", "inv-entry", "inv-pres", "lemma":
+		return true
+	}
+	return false
+}
+
 func (fx *FX) oblige(kind, label string, guard, goal T, pos token.Pos, src string) {
+	if functionalKind(kind) && fx.domain.S != "" && fx.domain.S != "true" && !fx.safeClause {
+		guard = and(guard, fx.domain)
+	}
 	if goal.S == "true" || guard.S == "false" {
 		return
 	}
@@ -844,6 +857,11 @@ func (fx *FX) run() {
 			reqs = append(reqs, t)
 			fx.assume(tTrue, t)
 		}
+		fx.domain = tTrue
+		for _, dcl := range fx.fc.Domain {
+			fx.domain = and(fx.domain, fx.hypBool(env, dcl.E))
+		}
+		fx.domain = fx.def("domain", fx.domain)
 		for _, m := range fx.fc.Modifies {
 			v := fx.evalExpr(env, m)
 			switch x := v.(type) {
@@ -1301,7 +1319,9 @@ func (fx *FX) enterLoop(li *loopInfo, h *ssa.BasicBlock, conds []T, sts []*State
 		env := fx.loopEnv(li, sts[k], func(phi *ssa.Phi) Val { return fx.val(phi.Edges[predIdx[k]]) }, phis)
 		if li.lc != nil {
 			for _, c := range li.lc.Inv {
+				fx.safeClause = c.Safe
 				fx.oblige("inv-entry", fmt.Sprintf("loop%d.%s", li.ordinal, c.Label), conds[k], fx.goalBool(env, c.E), h.Instrs[0].Pos(), c.Src)
+				fx.safeClause = false
 			}
 		}
 	}
@@ -1350,7 +1370,11 @@ func (fx *FX) enterLoop(li *loopInfo, h *ssa.BasicBlock, conds []T, sts []*State
 	env := fx.loopEnv(li, st, func(phi *ssa.Phi) Val { return fx.vals[phi] }, phis)
 	if li.lc != nil {
 		for _, c := range li.lc.Inv {
-			fx.assume(st.PC, fx.hypBool(env, c.E))
+			g := st.PC
+			if !c.Safe && fx.domain.S != "" {
+				g = and(g, fx.domain)
+			}
+			fx.assume(g, fx.hypBool(env, c.E))
 		}
 		if li.lc.Decreases != nil {
 			li.variant = fx.def("variant", fx.evalInt(env, li.lc.Decreases.E))
@@ -1617,7 +1641,9 @@ func (fx *FX) closeLoop(li *loopInfo, from *ssa.BasicBlock, succIdx int) {
 	env := fx.loopEnv(li, st, func(phi *ssa.Phi) Val { return fx.val(phi.Edges[pidx]) }, phis)
 	if li.lc != nil {
 		for _, c := range li.lc.Inv {
+			fx.safeClause = c.Safe
 			fx.oblige("inv-pres", fmt.Sprintf("loop%d.%s", li.ordinal, c.Label), cond, fx.goalBool(env, c.E), lastPos(from), c.Src)
+			fx.safeClause = false
 		}
 		if li.lc.Decreases != nil {
 			nv := fx.evalInt(env, li.lc.Decreases.E)
